@@ -15,7 +15,7 @@ LEVEL = "proof"
 
 MANIFEST = {
     "technique": "Coq proof (template-shape expansion, Python block-rule parser lemma, big-step semantics vs table interpreter) + translation validation of the generated module + execution against the interpreter",
-    "text": ("Theorems C08_sem / C08_init / C08_block_structure: for every well-formed table, every event sequence and every guard oracle "
+    "text": ("Theorems C08_sem / C08_sem_triggered / C08_init / C08_block_structure: for every well-formed table, every event sequence and every guard oracle "
              "(indexed by call count) the lines smgen produces from the shipped template's transition blocks (shape regenerated from the "
              "template into Gen/PyTmpl.v on every run) parse by Python's block rule, and the parsed program makes exactly the callbacks and "
              "passes through exactly the states of the independent table interpreter (Spec/TableInterp.v). Tie: gen_py T equals the "
@@ -23,8 +23,9 @@ MANIFEST = {
              "CPython's ast.parse (also on perturbed indentation); CTransitionTableModel vs Model/TTable.v; the real modules are imported in a "
              "subprocess and driven through Trigger<Event> under a tracing controller subclass and compared with the interpreter."),
     "note": ("Proved about the model of the template as repaired by two fix: commits (unguarded rows get 'if True:'; process() ends in "
-             "NoTransition). Modelled, not verified: CPython executing if/return/method calls as the big-step semantics says; Trigger<Event> "
-             "reaching process(event) when StateMachineThread=0 (threaded delivery is C11); isinstance on distinct event classes = name equality. "
+             "NoTransition). Modelled, not verified: CPython executing if/return/method calls as the big-step semantics says; the construction of the event object in "
+             "Trigger<Event> (that Trigger calls process(event) synchronously exactly once when StateMachineThread=0 is now part of the theorem, "
+             "C08_sem_triggered, from the IR of Gen/PySync.v; threaded delivery is C11); isinstance on distinct event classes = name equality. "
              "Names that collide with identifiers the template itself uses (Enum, EventStartup, NoTransition, ...) are outside the proof's name "
              "abstraction; they are probed on the real code."),
 }
@@ -41,7 +42,8 @@ TRUSTED = ["Coq 8.16.1 kernel (coqc; coqchk in the thorough tier)", "axioms: non
            "translator/pytmpl.py (regex classification of the template's __init__ tail and State Processing section, fail closed)",
            "extraction: ExtrOcamlBasic + ExtrOcamlNativeString; ocaml/cmds_sm.ml",
            "harness abstraction of generated Python lines to (indent, kind, name) by regex",
-           "modelled, not verified: CPython's execution of if/return/method calls and isinstance; Trigger<Event> -> process(event) in non-threaded mode"]
+           "translator/pysync.py (IR of Trigger<Event>, shared with C11)",
+           "modelled, not verified: CPython's execution of if/return/method calls and isinstance; event = <Event>(args) in Trigger<Event>"]
 ALLOWED_AXIOMS = []
 
 PY = sys.executable
@@ -320,26 +322,6 @@ def parser_case(ctx, rng, table):
         ctx.tie_broken("correspondence PySM.parse_indent vs CPython ast.parse (perturbed indentation)", {"lines": lines, "model": mp, "cpython": cp})
 
 
-def ttmodel_case(ctx, table):
-    m = kj.smgen.CTransitionTableModel(table, "NS", NAME)
-    tps = [[s, [[e, [[r[0], r[1], r[2], r[3], r[4]] for r in table if r[0] == s and r[1] == e]] for e in evd]] for s, evd in m.transitionsperstate.items()]
-    # the real transition dictionaries, reduced to (action, guard, next) presence, must describe the same rows
-    real_rows = [[s, [[e, [[tr.get("<<<ACTIONNAME>>>"), tr.get("<<<GUARDNAME>>>"), tr.get("<<<NEXTSTATENAME>>>"), tr.get("<<<STATENAMEIFNEXTSTATE>>>")]
-                           for tr in trs]] for e, trs in evd.items()]] for s, evd in m.transitionsperstate.items()]
-    real = [list(m.states), list(m.events), list(m.actions), list(m.guards),
-            [[a, e] for _k, (a, e) in m.actionsignatures.items()], tps, m.getfirststate()]
-    got = ctx.km.call("tt_model", table)
-    dec = lambda v: [dec(x) for x in v] if isinstance(v, list) else v.decode()  # noqa
-    got = dec(got)
-    if got != real:
-        ctx.tie_broken("correspondence CTransitionTableModel vs Model/TTable.v", {"table": table, "real": real, "model": got})
-        return
-    opt = lambda x: None if smlib.is_none(x) else x  # noqa
-    want_rows = [[s, [[e, [[opt(r[3]), opt(r[4]), opt(r[2]), (r[0] if opt(r[2]) else None)] for r in rows]] for e, rows in evd]] for s, evd in tps]
-    if real_rows != want_rows:
-        ctx.tie_broken("CTransitionTableModel.transitionsperstate does not carry the rows' action/guard/target", {"table": table})
-
-
 def gen_case(rng):
     table = smlib.random_table(rng)
     spec = smlib.random_iface_spec(rng, table, "py", {"StateMachineThread": "0"}, extra_events=rng.choice([0, 0, 1]))
@@ -387,7 +369,7 @@ def run(ctx):
         m = ctx.budget(1500, 20000)
         for i in range(m):
             table = smlib.random_table(ctx.rng, collide=(i % 5 == 0))
-            ttmodel_case(ctx, table)
+            smlib.ttmodel_case(ctx, table)
             parser_case(ctx, ctx.rng, table)
             ctx.case(("parser", i, json.dumps(table)), nontrivial=True)
             ctx.count("ttmodel_and_parser_cases")
